@@ -126,7 +126,7 @@ def work(job):
     # online trace rule: nothing is written through a name that is already a source file
     through = [o for o in (rec.shim or []) if fault.phase_of(o) in TRACE_RULE_PHASES]
     torn = {rel: s for rel, s in states.items() if s.startswith("torn")}
-    act_class = "signal+kill" if action.startswith("SIGTERM+") else action if (action in ("kill-before", "kill-after", "short", "EPIPE-on-log-line", "all-reads-short", "stall+kill", "stall+EIO") or action.startswith("read-")) else "short+errno" if action.startswith("short+") else ("persistent-errno" if action.startswith("persistent") else ("errno+kill" if "+kill" in action else "errno"))
+    act_class = "signal+kill" if action.startswith("SIGTERM+") else action if (action in ("signal", "kill-before", "kill-after", "short", "EPIPE-on-log-line", "all-reads-short", "stall+kill", "stall+EIO") or action.startswith("read-")) else "short+errno" if action.startswith("short+") else ("persistent-errno" if action.startswith("persistent") else ("errno+kill" if "+kill" in action else "errno"))
     for rel, s in sorted(torn.items()):
         res["violations"].append({"signature": "C07.%s|%s|%s" % (s, act_class, phase),
                                   "detail": {"file": rel, "state": s, "k": k, "action": action, "phase": phase, "end": rec.ended(),
@@ -295,6 +295,11 @@ def main(tier):
                 for j in range(ksig + 1, len(rec1.shim) + 1):
                     for act in ("kill-before", "kill-after"):
                         jobs.append((built, pi, proj, expected, "%d+%d" % (ksig, j), "SIGTERM+" + act, "%s;n=%d,act=%s" % (rs, j, act), fault.phase_of(rec1.shim[j - 1])))
+        # a stop request at every scratch-file operation (no kill): whatever is done with the file in hand, it ends original or complete
+        for o in ops:
+            if fault.phase_of(o).startswith("tmp-") or fault.phase_of(o) == "rename":
+                for signo in (15, 2):
+                    jobs.append((built, pi, proj, expected, o["n"], "signal", "n=%d,act=sig:%d" % (o["n"], signo), fault.phase_of(o)))
         # stdout is a pipe whose reader has gone away: the k-th log line fails with EPIPE, println! panics, the process unwinds
         # (destructors run) - for every log line of the clean run
         sops, _, _, _, _ = fault.clean_reference(built, proj, stdio_ops=True)
